@@ -18,6 +18,13 @@ pub(crate) struct Metadata {
     pub(crate) checksum: u64,
 }
 
+/// Decodes an entry header that was read from disk. The bytes may be damaged, so the archive is
+/// validated before anything is read through it; `None` means "not a header".
+pub(crate) fn decode_metadata(bytes: &[u8]) -> Option<Metadata> {
+    let archived = rkyv::check_archived_root::<Metadata>(bytes).ok()?;
+    archived.deserialize(&mut rkyv::Infallible).ok()
+}
+
 #[derive(Clone, Debug)]
 pub struct Block {
     pub(crate) id: u64,
@@ -96,11 +103,7 @@ impl Block {
         let mut aligned = rkyv::AlignedVec::with_capacity(meta_len);
         aligned.extend_from_slice(&meta_buffer[2..2 + meta_len]);
 
-        // SAFETY: `aligned` contains bytes we just read from our own file format.
-        // We bounded `meta_len` to PREFIX_META_SIZE and copy into an `AlignedVec`,
-        // which satisfies alignment requirements of rkyv.
-        let archived = unsafe { rkyv::archived_root::<Metadata>(&aligned[..]) };
-        let meta: Metadata = archived.deserialize(&mut rkyv::Infallible).map_err(|_| {
+        let meta: Metadata = decode_metadata(&aligned[..]).ok_or_else(|| {
             std::io::Error::new(
                 std::io::ErrorKind::InvalidData,
                 "failed to deserialize metadata",
@@ -110,6 +113,12 @@ impl Block {
 
         // Read the actual data
         let new_offset = file_offset + PREFIX_META_SIZE as u64;
+        if (actual_entry_size as u64) > (self.mmap.len() as u64).saturating_sub(new_offset) {
+            return Err(std::io::Error::new(
+                std::io::ErrorKind::InvalidData,
+                "entry length reaches past the end of the file",
+            ));
+        }
         let mut ret_buffer = vec![0; actual_entry_size];
         self.mmap.read(new_offset as usize, &mut ret_buffer);
 
